@@ -122,6 +122,14 @@ static void exec_life(const Plan &p, RunResult &r) {
     // always one ciphertext array and one gate so that every configuration evaluates
     { LweSample *a = new_gate_bootstrapping_ciphertext_array(4, L.params); for (int i = 0; i < 4; i++) bootsSymEncrypt(a + i, i & 1, L.sk); L.cts.push_back({a, 4, 0, L.params}); }
     do_gate(L, 0, 0, 0, p.seed);
+    if (L.c.n > 1024 || L.c.n < 8 || p.cfg.geti("allgates")) {
+        // boundary dimensions (n > N, n below the vector width): every gate of the API once
+        Life::CtArr &A = L.cts[0];
+        LweSample *tmp = new_gate_bootstrapping_ciphertext(L.params);
+        for (int g = 0; g < G_COUNT; g++) { gate_apply(g, tmp, ct_at(A, g), ct_at(A, g + 1), ct_at(A, g + 2), g & 1, &L.sk->cloud); r.ev.u64(obs::hash_lwe(tmp, L.c.n)); }
+        delete_gate_bootstrapping_ciphertext(tmp);
+        r.probes.add("all_gates_at_boundary_dimension");
+    }
     for (size_t oi = 0; oi < p.ops.size(); oi++) {
         const Op &o = p.ops[oi];
         std::string k = o.gets("k");
